@@ -7,11 +7,11 @@ from c15_objs import *
 from c15_oracle import expect, call, CLEAN, conversion_problem
 
 PROP = 'C15'
-LEAN_MODULES = ['PMV.Props.C15', 'PMV.Lemmas.C15Calls', 'PMV.Lemmas.Ravel', 'PMV.Lemmas.AxisPerm', 'PMV.Lemmas.AxisOps']
+LEAN_MODULES = ['PMV.Props.C15', 'PMV.Props.C15Items', 'PMV.Props.C15Conv', 'PMV.Props.C15Scalars', 'PMV.Props.C15Denom', 'PMV.Props.C15Swap', 'PMV.Lemmas.C15Calls', 'PMV.Lemmas.Ravel', 'PMV.Lemmas.AxisPerm', 'PMV.Lemmas.AxisOps']
 PARALLEL = True
 MANIFEST = {
     'text': 'Kernel-checked theorems about a code-shaped Lean model of polymath/extensions/shaper.py, item_ops.py and '
-            'Qube.broadcast_to (PMV/Props/C15.lean; lemmas in PMV/Lemmas/C15Calls, Ravel, AxisPerm, AxisOps): at the level of '
+            'Qube.broadcast_to (PMV/Props/C15*.lean; lemmas in PMV/Lemmas/C15Calls, Ravel, AxisPerm, AxisOps): at the level of '
             'the WHOLE object, for reshape, flatten, swap_axes, roll_axis, move_axis (any number of axes, rank= extension) and '
             'broadcast_to, values, mask and EVERY derivative of the result are the input\'s re-indexed by ONE map on the leading '
             'part (by induction over the derivative list, through the constructor and insert_deriv), class/numerator/'
@@ -20,8 +20,10 @@ MANIFEST = {
             'rejects what NumPy rejects; the maps are bijections between valid index sets (ravel/unravel for every shape, axis '
             'permutations for every rank), inverse pairs compose to the identity (swap/swap, roll/roll back, move/move back, '
             'reshape/reshape, flatten/reshape, join_items/split_items, as_row|as_column/flatten_numer), masked counts are '
-            'preserved; item operations (reshape_numer, transposes, extract_numer, stack rows) act on the item part / the new '
-            'axis only. Tied to /repo on every run by a correspondence check with identifier-tagged values, masks and '
+            'preserved; item operations (reshape_numer, transpose_numer, extract_numer, slice_numer incl. their derivative '
+            'recursion; the denominator operations; stack rows) act on the item part / the new axis only; '
+            'from_scalars∘to_scalars = id; the value-preserving class conversions are modelled and proved to be class '
+            'coercions where they are relabelings (counterexamples for the recorded corner). Tied to /repo on every run by a correspondence check with identifier-tagged values, masks and '
             'derivatives over all classes, item shapes, leading shapes to rank 4, all legal and illegal arguments, operand '
             'provenance (memory layouts, previous shaping operations) and warm caches; the direct oracle is NumPy applied to '
             'the tagged arrays.',
@@ -31,8 +33,9 @@ MANIFEST = {
     'note': 'Trusted: Lean kernel; hand-written models Model/NpShape.lean (NumPy primitives), Model/Shaper.lean, '
             'Model/ItemOps.lean (checked against the code and against NumPy by the correspondence run); harness abstraction. '
             'Nine defects repaired (DESIGN 2.7 #19, #25, #26 and six found here; all merged); one recorded '
-            '(KF-C15-conv-leading: as_matrix/as_pair re-read the raw array). from_scalars/slice/as_diagonal/swap_items and the '
-            'as_<class> conversions are tied or swept but have no object-level theorem (DESIGN.d/C15.md §6).',
+            '(KF-C15-conv-leading: as_matrix/as_pair/as_vector3 re-read the raw array; proved as counterexamples on the model). '
+            'as_diagonal, swap_items, the derivative union of stack and multi-axis move inverses are tied but have no '
+            'theorem (DESIGN.d/C15.md §6).',
 }
 RULE = ('operand provenance: fresh C-contiguous arrays, np.asfortranarray copies, transposed views of C bases, '
         'every-second-element views of wider bases (last / first axis), and results of a previous shaping operation '
@@ -107,6 +110,8 @@ def request(case):
         return ['c15', op, o, a['rec'], a['index']]
     if op in ('to_scalars', 'as_row', 'as_column', 'as_diagonal'):
         return ['c15', op, o, a['rec']]
+    if op == 'as_class':
+        return ['c15', op, o, a['rec'], a['target']]
     return None
 
 
